@@ -112,6 +112,7 @@ type readRes struct {
 // ctl is the scheduler's view of one parser.
 type ctl struct {
 	arr  chan arrival
+	late chan arrival  // callbacks that start / return after the schedule is over
 	free chan struct{} // closed: every yield point returns at once (the schedule is over)
 }
 
@@ -131,16 +132,25 @@ func hook(p *ansi.Parser, point int, pv any) {
 		return
 	}
 	a := arrival{point: point, panicked: pv, wake: make(chan struct{})}
-	select {
-	case c.arr <- a:
-	case <-c.free:
-		if pv != nil && point == 39 {
-			// the schedule is over: still report it (the channel is buffered for this)
+	over := func() {
+		// the schedule is over: callbacks still report that they started / returned (or panicked)
+		if point == 30 || point == 39 {
 			select {
-			case c.arr <- a:
+			case c.late <- a:
 			default:
 			}
 		}
+	}
+	select {
+	case <-c.free:
+		over()
+		return
+	default:
+	}
+	select {
+	case c.arr <- a:
+	case <-c.free:
+		over()
 		return
 	}
 	if point == 29 || point == 39 {
@@ -181,17 +191,13 @@ type cbState struct {
 // runSchedule replays one schedule; returns the labels actually executed (an unplanned expiry of the
 // parser's timer is inserted as `X` right after the step that armed it) and the observations.
 func runSchedule(labels []string) (actual []string, obs string, unplanned int) {
-	c := &ctl{arr: make(chan arrival, 16), free: make(chan struct{})}
+	c := &ctl{arr: make(chan arrival, 16), late: make(chan arrival, 64), free: make(chan struct{})}
 	rd := &schedReader{c: c}
 	regMu.Lock()
 	p := ansi.NewParser(rd)
 	ctls[p] = c
 	regMu.Unlock()
-	defer func() {
-		regMu.Lock()
-		delete(ctls, p)
-		regMu.Unlock()
-	}()
+	// (p stays registered: a callback that is still running when the schedule is over must find its ctl)
 
 	var (
 		mainWake  chan struct{} // main parked at a verifSched point
@@ -401,17 +407,35 @@ func runSchedule(labels []string) (actual []string, obs string, unplanned int) {
 	items = nil
 	deadline := time.NewTimer(failAfter)
 	defer deadline.Stop()
+	started, finished := len(cbs), 0
+	for _, cb := range cbs {
+		if cb.pt == 39 {
+			finished++
+		}
+	}
 	if !hang {
+		late := func(a arrival) {
+			switch a.point {
+			case 30:
+				started++
+			case 39:
+				finished++
+				if a.panicked != nil {
+					items = append(items, "panic:"+strings.ReplaceAll(fmt.Sprint(a.panicked), " ", "-"))
+				}
+			}
+		}
 	drain:
-		for out != nil {
+		for out != nil || finished < started {
 			select {
 			case seq, ok := <-out:
 				take(seq, ok)
 			case a := <-c.arr:
-				if a.panicked != nil {
-					items = append(items, "panic:"+strings.ReplaceAll(fmt.Sprint(a.panicked), " ", "-"))
-				}
+				late(a)
+			case a := <-c.late:
+				late(a)
 			case <-deadline.C:
+				items = append(items, "hang")
 				break drain
 			}
 		}
